@@ -53,7 +53,7 @@ META = {
          'create_certificate: flags, multi-signature, self-verification < store < mark; certificate field provenance; who stores certificates; Idle->Ready guards; epoch-initialisation order; gap test before walk; strict pruning threshold of open messages',
          'the invariant over all interleavings; SQL uniqueness; master-certificate query'),
  'C15': ('static analysis: effect ordering + provenance + error-mapping + lock pairing',
-         'verify < insert < mark order; AlreadyCertified is raised only under the open message's own flag (the stored-but-unflagged window stays re-sealable); nothing persisted on the no-certificate return; artifact record fields from the inputs; artifact only with the sealed certificate; ReInit/KeepState mapping; entity lock released on every exit of the spawned task; the restart-time clean-up keeps the current epoch\'s open messages (SQL operator)',
+         'verify < insert < mark order; AlreadyCertified is raised only under the open message\'s own flag (the stored-but-unflagged window stays re-sealable); nothing persisted on the no-certificate return; artifact record fields from the inputs; artifact only with the sealed certificate; ReInit/KeepState mapping; entity lock released on every exit of the spawned task; the restart-time clean-up keeps the current epoch\'s open messages (SQL operator)',
          'what a restart finds after each cut; progress'),
  'C16': ('static analysis: effect ordering + provenance + influence-on-control + who-may-call',
          'verify < store on an open non-expired message; stored = verified signature; key looked up by slot in the epoch registration; certificate signer filter; ingestion paths; DMQ sender pairing; party-label binding (known finding)',
